@@ -700,6 +700,13 @@ val from_iter : tcfg -> (z -> z option) -> nat -> answer list -> answer list m
 
 val from_slice : tcfg -> (z -> z option) -> nat -> elem list -> unit m
 
+val uadd : tcfg -> z -> z -> z m
+
+val clone_go :
+  tcfg -> (z -> z option) -> nat -> nat -> nat -> z -> z -> unit m
+
+val clone_fill : tcfg -> (z -> z option) -> nat -> nat -> unit m
+
 val clone_vec : tcfg -> (z -> z option) -> nat -> nat -> unit m
 
 type bound =
@@ -797,8 +804,6 @@ val set_filter_panicked : nat -> bool -> unit m
 val set_filter_pos : nat -> z -> unit m
 
 val set_filter_new : nat -> z -> unit m
-
-val uadd : tcfg -> z -> z -> z m
 
 val filter_pred_at : tcfg -> nat -> eptr -> bool m
 
